@@ -8,7 +8,7 @@ AST (plain tuples):
           | ('tok', text) | ('null',) | ('cmp', op, a, b) | ('arith', op, a, b) | ('and', a, b) | ('or', a, b)
           | ('not', a) | ('in', e, [exprs]) | ('insel', e, select) | ('func', name, [args]) | ('star',)
           | ('neg', a) | ('isnull', e, negated)
-  select := ('select', distinct, [(expr, alias)], [source], where|None, [(expr, desc)], nparams)
+  select := ('select', distinct, [(expr, alias)], [source], where|None, [(expr, desc)], limit|None)
   source := ('table', name, alias, on|None) | ('subq', select, alias, on|None)
 """
 import re
@@ -230,9 +230,13 @@ class Parser:
                     self.i += 1
                     continue
                 break
-        if self.at_kw("GROUP", "HAVING", "LIMIT", "UNION", "LEFT"):
+        limit = None
+        if self.at_kw("LIMIT"):
+            self.i += 1
+            limit = self.add()
+        if self.at_kw("GROUP", "HAVING", "UNION", "LEFT"):
             raise SqlUnsupported("clause %s" % self.peek()[1])
-        return ("select", distinct, items, sources, where, order)
+        return ("select", distinct, items, sources, where, order, limit)
 
     def source(self, first):
         if self.at_op("("):
